@@ -97,12 +97,20 @@ def gen_size(rng):
 
 def as_input(examples, form):
     """list / frequency dict / pandas column forms of the same multiset"""
-    if form == 'dict':
+    if form in ('dict', 'dict0'):
         d = {}
         for s in examples:
             d[s] = d.get(s, 0) + 1
+        if form == 'dict0':
+            # a Counter after subtraction: entries with a count of 0 are not examples
+            for z in ZERO_COUNT:
+                if z not in d:
+                    d[z] = 0
         return d
     return list(examples)
+
+
+ZERO_COUNT = ['zero-count-entry', 'ZZ 0', '']
 
 
 def run_extract(examples, opts, size=None, seed=None, form='list', as_object=False, keep_random=True):
@@ -166,8 +174,8 @@ def char_table(strings, ascii_digits=False):
 
 def model_extract_op(examples, opts, form='list', size=None):
     """the rx.extract op for a case without sampling"""
-    if form == 'dict':
-        d = as_input(examples, 'dict')
+    if form in ('dict', 'dict0'):
+        d = as_input(examples, form)
         items = [[k, v] for k, v in d.items()]
     else:
         items = [[s, 1] for s in examples]
